@@ -75,7 +75,12 @@ func QuiesceNow() { time.Sleep(2 * time.Millisecond) }
 
 func Sleep(d time.Duration) { time.Sleep(d) }
 
-func Now() time.Duration { return time.Since(start) }
+func Now() time.Duration {
+	mu.Lock()
+	s := start
+	mu.Unlock()
+	return time.Since(s)
+}
 
 func Live() []string { return nil }
 
